@@ -354,31 +354,35 @@ fn emit_fn(
         let empty0 = ItemContract::default();
         let c0 = contract.unwrap_or(&empty0);
         for (i, (anchor, _)) in c0.inserts.iter().enumerate() {
-            if let Anchor::After(sn) | Anchor::Before(sn) = anchor {
+            if let Anchor::After(sn, nth) | Anchor::Before(sn, nth) = anchor {
                 let mut si = rules::SnippetInserter {
                     snippet: rules::norm(sn),
-                    after: matches!(anchor, Anchor::After(_)),
+                    after: matches!(anchor, Anchor::After(_, _)),
                     marker: i,
                     hits: 0,
                     done: false,
+                    nth: *nth,
                 };
+                let mut sc = rules::SnippetCounter { snippet: rules::norm(sn), count: 0 };
                 {
                     use syn::visit::Visit;
-                    let mut sc = rules::SnippetCounter { snippet: rules::norm(sn), count: 0 };
                     sc.visit_block(&block);
-                    if sc.count != 1 {
-                        die(&format!(
-                            "{}: @insert anchor `{}` matches {} statements (lost anchor)",
-                            selector, sn, sc.count
-                        ));
+                }
+                match nth {
+                    None => {
+                        if sc.count != 1 {
+                            die(&format!("{}: @insert anchor `{}` matches {} statements (lost anchor)", selector, sn, sc.count));
+                        }
+                    }
+                    Some(n) => {
+                        if sc.count <= *n {
+                            die(&format!("{}: @insert anchor `{}` #{}: only {} matches (lost anchor)", selector, sn, n, sc.count));
+                        }
                     }
                 }
                 si.visit_block_mut(&mut block);
-                if si.hits != 1 {
-                    die(&format!(
-                        "{}: @insert anchor `{}` matched {} statements (lost anchor)",
-                        selector, sn, si.hits
-                    ));
+                if (nth.is_none() && si.hits != 1) || (nth.is_some() && !si.done) {
+                    die(&format!("{}: @insert anchor `{}` matched {} statements (lost anchor)", selector, sn, si.hits));
                 }
             }
         }
@@ -565,7 +569,7 @@ fn emit_fn(
                     die(&format!("{}: @insert loop {} before/after: no such loop statement (lost anchor)", selector, k));
                 }
             }
-            Anchor::After(_) | Anchor::Before(_) | Anchor::Chain(_) => {}
+            Anchor::After(_, _) | Anchor::Before(_, _) | Anchor::Chain(_) => {}
         }
     }
 
